@@ -1,5 +1,5 @@
 import Gimli.Spec.WCfi
-import Gimli.Lemmas.WCfiSleb
+import Gimli.Lemmas.Leb
 import Gimli.Lemmas.Ints
 import Gimli.Lemmas.Cfi
 /-!
@@ -233,7 +233,7 @@ theorem instr_roundtrip_main (c : DecodeCfg) (p : Params)
       refine ⟨.defCfaSf r f, ?_, ?_⟩
       · intro pos rest
         parse_lit 0x12
-        simp only [readReg_regU, Out.bind_ok, Sleb.signed_roundtrip f (by omega) (by omega), Out.pure_eq]
+        simp only [readReg_regU, Out.bind_ok, Leb.signed_roundtrip f (by omega) (by omega), Out.pure_eq]
       · intro s
         simp only [step, wStep, factored]
         rw [← hmul, wrapI64_id off (by omega)]
@@ -268,7 +268,7 @@ theorem instr_roundtrip_main (c : DecodeCfg) (p : Params)
       refine ⟨.defCfaOffsetSf f, ?_, ?_⟩
       · intro pos rest
         parse_lit 0x13
-        simp only [Out.bind_ok, Sleb.signed_roundtrip f (by omega) (by omega), Out.pure_eq]
+        simp only [Out.bind_ok, Leb.signed_roundtrip f (by omega) (by omega), Out.pure_eq]
       · intro s
         simp only [step, wStep, factored]
         rw [← hmul, wrapI64_id off (by omega)]
@@ -348,7 +348,7 @@ theorem instr_roundtrip_main (c : DecodeCfg) (p : Params)
       refine ⟨.offsetExtendedSf r f, ?_, ?_⟩
       · intro pos rest
         parse_lit 0x11
-        simp only [readReg_regU, Out.bind_ok, Sleb.signed_roundtrip f (by omega) (by omega), Out.pure_eq]
+        simp only [readReg_regU, Out.bind_ok, Leb.signed_roundtrip f (by omega) (by omega), Out.pure_eq]
       · intro s
         simp only [step, wStep, factored]
         rw [← hmul, wrapI64_id off (by omega)]
@@ -394,7 +394,7 @@ theorem instr_roundtrip_main (c : DecodeCfg) (p : Params)
       refine ⟨.valOffsetSf r f, ?_, ?_⟩
       · intro pos rest
         parse_lit 0x15
-        simp only [readReg_regU, Out.bind_ok, Sleb.signed_roundtrip f (by omega) (by omega), Out.pure_eq]
+        simp only [readReg_regU, Out.bind_ok, Leb.signed_roundtrip f (by omega) (by omega), Out.pure_eq]
       · intro s
         simp only [step, wStep, factored]
         rw [← hmul, wrapI64_id off (by omega)]
